@@ -219,6 +219,12 @@ partial def loop (h : IO.FS.Stream) : IO Unit := do
          IO.println s!"ok v={v.major}.{v.minor}.{v.patch} end?={g.fend.isSome} meta={if g.metadata.isSome then "some" else "none"} gecko={gk} frames={(g.frames.getD "0")} hash={g.hash.getD "none"} quirks={match g.quirks with | some b => toString b | none => "none"}"
        | .err e => IO.println s!"err {e}"
        | .panic p => IO.println s!"panic {p}")
+  | ["vgrid", m, ps] =>
+    -- the writers' version guard on every (minor, patch) of one major: '1' = refused
+    let pl := (ps.splitOn ",").map String.toNat!
+    let bits := (List.range 256).flatMap fun mi => pl.map fun p =>
+      match assertMaxVersion ⟨m.toNat!, mi, p⟩ with | .ok _ => '0' | _ => '1'
+    IO.println ("grid " ++ String.ofList bits)
   | ["consts"] =>
     IO.println s!"max={MAX_SUPPORTED_VERSION.major}.{MAX_SUPPORTED_VERSION.minor}.{MAX_SUPPORTED_VERSION.patch} first_index={FIRST_INDEX} min_peppi={PEPPI_MIN_VERSION.1}.{PEPPI_MIN_VERSION.2.1}.{PEPPI_MIN_VERSION.2.2}"
   | _ => IO.println "n/a"
